@@ -62,7 +62,7 @@ static void calculate_ziggurat(void)
         struct layer cand;
         cand.tgt_area = 1.0 / ARRSIZE;
         cand.x0 = 0.0;
-        cand.y0 = yarr[i - 1];
+        cand.y0 = (i > 0) ? yarr[i - 1] : 0.0;
 
         /* Search for the next layer upper-right corner, ensuring that the
          * candidate solutions bracket a root   */
